@@ -58,7 +58,9 @@ Section SpecProps.
   Proof.
     unfold dir_data. destruct (d_done d) eqn:D.
     - intros [= <- <-]. repeat split; auto; congruence.
-    - destruct (parse _); intros [= <- <-]; cbn; repeat split; auto; congruence.
+    - destruct (all_placed _ _ _).
+      + intros [= <- <-]. repeat split; auto; congruence.
+      + destruct (parse _); intros [= <- <-]; cbn; repeat split; auto; congruence.
   Qed.
 
   (* what one step does to the done flags of connection id and to the report *)
